@@ -31,7 +31,9 @@ def gen_error(rng):
 def gen_ts(rng, epoch0=False):
     if epoch0:
         return _dt.datetime.fromtimestamp(0, tz=UTC)
-    return _dt.datetime.fromtimestamp(rng.uniform(946684800, 4102444800), tz=UTC).replace(microsecond=rng.choice([0, 1, 999, 1000, 123456, 999999]))
+    tz = rng.choice([UTC, UTC, _dt.timezone(_dt.timedelta(hours=5, minutes=30)), _dt.timezone(_dt.timedelta(hours=-8)),
+                     _dt.timezone(_dt.timedelta(hours=13, minutes=45))])
+    return _dt.datetime.fromtimestamp(rng.uniform(946684800, 4102444800), tz=tz).replace(microsecond=rng.choice([0, 1, 999, 1000, 123456, 999999]))
 
 
 def gen_update(rng):
@@ -166,11 +168,27 @@ def check_instance(kind, x, viol, counts, epoch0=False):
             viol.append(V(PROP, "C20/operation-dict-roundtrip-lossy/%s%s" % (d, _ts_tag(d, epoch0, norm(x), norm(y))), "%r -> %r" % (x, y)))
         j = x.to_json_dict()
         try:
-            json.dumps(j)
+            frozen = json.dumps(j, sort_keys=True)
         except (TypeError, ValueError) as e:
             viol.append(V(PROP, "C20/operation-json-dict-not-json-serializable" + tag, str(e)))
             return
         z = type(x).from_json_dict(j)
+        # decoding must not alter the wire dictionary it was given, and decoding it again must give the same object
+        try:
+            if json.dumps(j, sort_keys=True) != frozen:
+                viol.append(V(PROP, "C20/from-json-dict-mutates-its-input", "wire dict changed by decoding: %r" % (x,)))
+        except (TypeError, ValueError):
+            viol.append(V(PROP, "C20/from-json-dict-mutates-its-input", "wire dict no longer JSON after decoding: %r" % (x,)))
+        try:
+            z2 = type(x).from_json_dict(j)
+            if norm(z2, ms=True) != norm(z, ms=True):
+                viol.append(V(PROP, "C20/second-decode-of-same-wire-dict-differs", "%r" % (x,)))
+        except Exception as e:  # noqa: BLE001
+            viol.append(V(PROP, "C20/second-decode-of-same-wire-dict-fails/%s" % type(e).__name__, "%r" % (x,)))
+        if z.to_json_dict() != json.loads(frozen) and norm(z, ms=True) == norm(x, ms=True):
+            j0 = json.loads(frozen)
+            if norm(type(x).from_json_dict(z.to_json_dict()), ms=True) != norm(z, ms=True):
+                viol.append(V(PROP, "C20/re-encoded-json-dict-differs", "%r" % (x,)))
         if norm(z, ms=True) != norm(x, ms=True):
             d = diff(norm(x, True), norm(z, True))
             viol.append(V(PROP, "C20/operation-json-roundtrip-lossy/%s%s" % (d, _ts_tag(d, epoch0, norm(x, True), norm(z, True))), "%r -> %r" % (x, z)))
